@@ -44,14 +44,23 @@ Inductive ukind :=
 | UUnstoppable              (* unstoppable(s) *)
 | UMat                      (* materialize(s), the reified signal folded into one value by [enc] *)
 | UDoneOpt                  (* done_as_optional(s): done becomes the value "nullopt" (-1 here) *)
-| UWithSched (c : nat).     (* [Calc2] with_query_value(s, get_scheduler, scheduler of context c) *)
+| UWithSched (c : nat)      (* [Calc2] with_query_value(s, get_scheduler, scheduler of context c) *)
+| ULetSS (now : bool)       (* [Calc2] let_value_with_stop_source(f): s is the sender f returns; the children see the
+                              operation's own stop source (chained to the receiver's token); now = f itself
+                              requests stop on the source before returning *)
+| URepeat (l : list bool)   (* [Calc2] repeat_effect_until(s, pred): the k-th call of pred returns the k-th element
+                              of l, true when l is exhausted *)
+| UIntoVar.                 (* [Calc2] into_variant(s) (the variant unpacked again: identity on the one value) *)
 
 Inductive bkind :=
 | BLetV | BLetE | BLetD     (* let_value / let_error / let_done: b is the successor, may use Var 0 *)
 | BSeq                      (* sequence(a, b) *)
 | BFinally                  (* finally(a, b) *)
 | BWhenAll                  (* when_all(a, b), values folded into one by [combine] *)
-| BStopWhen.                (* stop_when(a, b): a = source, b = trigger *)
+| BStopWhen                 (* stop_when(a, b): a = source, b = trigger *)
+| BRetry (n : nat).         (* [Calc2] retry_when(a, f): b = the trigger sender f returns for the first n errors
+                              (may use Var 0 = the error code); from the (n+1)-th error on f's sender fails
+                              with that error *)
 
 Inductive sexpr :=
 | Just (v : Z) | JustErr (e : Z) | JustDone
@@ -60,6 +69,9 @@ Inductive sexpr :=
 | LeafN (id : nat)          (* stop-reactive leaf: completes with done from its stop callback *)
 | Sched (id c : nat)        (* [Calc2] schedule() on the scheduler of context c: start enqueues into c's FIFO;
                               when run (on context c) completes with value 0, or done if stop was requested *)
+| LeafR (id lvl : nat)      (* [Calc2] then(leaf id, f) where f first requests stop on the source of the lvl-th
+                              enclosing let_value_with_stop_source (0 = outermost) and then returns its argument *)
+| StopIf                    (* [Calc2] stop_if_requested(): done if stop was requested, value (0) otherwise *)
 | Un (k : ukind) (s : sexpr)
 | Bin (k : bkind) (a b : sexpr).
 
@@ -70,26 +82,32 @@ Record env := {
   e_root : bool;             (* the stop token is the root receiver's own token (not an algorithm's source) *)
   e_q0 : Z; e_q1 : Z;        (* two custom query CPOs (0 = default answer) *)
   e_sched : nat;             (* [Calc2] get_scheduler(r): the context of the receiver's scheduler *)
+  e_ss : nat;                (* [Calc2] number of enclosing let_value_with_stop_source operations *)
   e_bound : list Z           (* values bound by enclosing let_* (innermost first) *)
 }.
 
 Definition env_with_stop (en : env) (s : bool) : env :=
-  {| e_stopped := s; e_stoppable := e_stoppable en; e_root := e_root en; e_q0 := e_q0 en; e_q1 := e_q1 en; e_sched := e_sched en; e_bound := e_bound en |}.
+  {| e_stopped := s; e_stoppable := e_stoppable en; e_root := e_root en; e_q0 := e_q0 en; e_q1 := e_q1 en; e_sched := e_sched en; e_ss := e_ss en; e_bound := e_bound en |}.
 Definition env_bind (en : env) (v : Z) : env :=
-  {| e_stopped := e_stopped en; e_stoppable := e_stoppable en; e_root := e_root en; e_q0 := e_q0 en; e_q1 := e_q1 en; e_sched := e_sched en; e_bound := v :: e_bound en |}.
+  {| e_stopped := e_stopped en; e_stoppable := e_stoppable en; e_root := e_root en; e_q0 := e_q0 en; e_q1 := e_q1 en; e_sched := e_sched en; e_ss := e_ss en; e_bound := v :: e_bound en |}.
 Definition env_q (en : env) (q : nat) (v : Z) : env :=
   match q with
-  | O => {| e_stopped := e_stopped en; e_stoppable := e_stoppable en; e_root := e_root en; e_q0 := v; e_q1 := e_q1 en; e_sched := e_sched en; e_bound := e_bound en |}
-  | _ => {| e_stopped := e_stopped en; e_stoppable := e_stoppable en; e_root := e_root en; e_q0 := e_q0 en; e_q1 := v; e_sched := e_sched en; e_bound := e_bound en |}
+  | O => {| e_stopped := e_stopped en; e_stoppable := e_stoppable en; e_root := e_root en; e_q0 := v; e_q1 := e_q1 en; e_sched := e_sched en; e_ss := e_ss en; e_bound := e_bound en |}
+  | _ => {| e_stopped := e_stopped en; e_stoppable := e_stoppable en; e_root := e_root en; e_q0 := e_q0 en; e_q1 := v; e_sched := e_sched en; e_ss := e_ss en; e_bound := e_bound en |}
   end.
 Definition env_unstoppable (en : env) : env :=
-  {| e_stopped := false; e_stoppable := false; e_root := false; e_q0 := e_q0 en; e_q1 := e_q1 en; e_sched := e_sched en; e_bound := e_bound en |}.
+  {| e_stopped := false; e_stoppable := false; e_root := false; e_q0 := e_q0 en; e_q1 := e_q1 en; e_sched := e_sched en; e_ss := e_ss en; e_bound := e_bound en |}.
 Definition env_sched (en : env) (c : nat) : env :=
   {| e_stopped := e_stopped en; e_stoppable := e_stoppable en; e_root := e_root en; e_q0 := e_q0 en; e_q1 := e_q1 en;
-     e_sched := c; e_bound := e_bound en |}.
+     e_sched := c; e_ss := e_ss en; e_bound := e_bound en |}.
 (* children of when_all / stop_when see the algorithm's own stop source *)
 Definition env_own (en : env) (own_stop : bool) : env :=
-  {| e_stopped := own_stop; e_stoppable := true; e_root := false; e_q0 := e_q0 en; e_q1 := e_q1 en; e_sched := e_sched en; e_bound := e_bound en |}.
+  {| e_stopped := own_stop; e_stoppable := true; e_root := false; e_q0 := e_q0 en; e_q1 := e_q1 en; e_sched := e_sched en; e_ss := e_ss en; e_bound := e_bound en |}.
+
+(* [Calc2] children of let_value_with_stop_source see the operation's own stop source *)
+Definition env_ss (en : env) (own_stop : bool) : env :=
+  {| e_stopped := own_stop; e_stoppable := true; e_root := false; e_q0 := e_q0 en; e_q1 := e_q1 en;
+     e_sched := e_sched en; e_ss := S (e_ss en); e_bound := e_bound en |}.
 
 (* observable events, compared one by one with the real library's run *)
 Inductive tev :=
@@ -101,7 +119,10 @@ Inductive tev :=
                                           registered on that receiver's token (root: the token is the root's) *)
 | TLeafDtor (id : nat)                 (* [Calc2] the operation state of leaf id was destroyed *)
 | TSchedStart (id c : nat)             (* [Calc2] a schedule() operation was enqueued on context c *)
-| TSchedDtor (c : nat).                (* [Calc2] a started schedule() operation of context c was destroyed *)
+| TSchedDtor (c : nat)                 (* [Calc2] a started schedule() operation of context c was destroyed *)
+| TReqStop (id lvl : nat)              (* [Calc2] the callable of LeafR id runs: requests stop on source lvl *)
+| TPred (b : bool)                     (* [Calc2] repeat_effect_until's predicate was called and returned b *)
+| TGate (ok : bool).                   (* [Calc2] retry_when's function was called; ok = it returned the trigger *)
 
 (* per-node dynamic state *)
 Inductive phase := PFirst | PSecond | PBoth.
@@ -112,7 +133,8 @@ Record nst := {
   reg : bool;                  (* stop callback on the receiver's token currently registered *)
   adone : bool; bdone : bool;
   saved : option outcome;      (* finally: a's result; when_all: first error/done; stop_when: source's result *)
-  va : Z; vb : Z               (* when_all: children's values *)
+  va : Z; vb : Z;              (* when_all: children's values *)
+  n_iter : nat                 (* [Calc2] repeat_effect_until: predicate calls so far; retry_when: errors handled so far *)
 }.
 
 (* [Calc2] completion and destruction are distinct: a completed leaf stays [OLeaf true _] and a
@@ -123,32 +145,37 @@ Inductive ost :=
 | OFin                                           (* no operation state (destroyed, or never needed state) *)
 | OLeaf (completed seen : bool)                  (* a started leaf; completed = its receiver was completed *)
 | ONode (ns : nst) (a b : ost)
-| OCompl (a b : ost).                             (* [Calc2] a completed node whose children a b are not yet destroyed *)
+| OCompl (a b : ost)                              (* [Calc2] a completed node whose children a b are not yet destroyed *)
+| OHeld (v : Z).                                  (* [Calc2] LeafR: the leaf produced v and its callable is running (it has
+                                                     requested stop on a source; the completion proceeds afterwards) *)
 
 Definition mk_nst (p : phase) (en : env) : nst :=
   {| ph := p; n_env := en; own_stop := false; reg := false; adone := false; bdone := false;
-     saved := None; va := 0; vb := 0 |}.
+     saved := None; va := 0; vb := 0; n_iter := 0 |}.
 Definition ns_set_env (ns : nst) (en : env) : nst :=
   {| ph := ph ns; n_env := en; own_stop := own_stop ns; reg := reg ns; adone := adone ns; bdone := bdone ns;
-     saved := saved ns; va := va ns; vb := vb ns |}.
+     saved := saved ns; va := va ns; vb := vb ns; n_iter := n_iter ns |}.
 Definition ns_set_ph (ns : nst) (p : phase) : nst :=
   {| ph := p; n_env := n_env ns; own_stop := own_stop ns; reg := reg ns; adone := adone ns; bdone := bdone ns;
-     saved := saved ns; va := va ns; vb := vb ns |}.
+     saved := saved ns; va := va ns; vb := vb ns; n_iter := n_iter ns |}.
 Definition ns_set_own (ns : nst) (b : bool) : nst :=
   {| ph := ph ns; n_env := n_env ns; own_stop := b; reg := reg ns; adone := adone ns; bdone := bdone ns;
-     saved := saved ns; va := va ns; vb := vb ns |}.
+     saved := saved ns; va := va ns; vb := vb ns; n_iter := n_iter ns |}.
 Definition ns_set_reg (ns : nst) (b : bool) : nst :=
   {| ph := ph ns; n_env := n_env ns; own_stop := own_stop ns; reg := b; adone := adone ns; bdone := bdone ns;
-     saved := saved ns; va := va ns; vb := vb ns |}.
+     saved := saved ns; va := va ns; vb := vb ns; n_iter := n_iter ns |}.
 Definition ns_set_saved (ns : nst) (o : option outcome) : nst :=
   {| ph := ph ns; n_env := n_env ns; own_stop := own_stop ns; reg := reg ns; adone := adone ns; bdone := bdone ns;
-     saved := o; va := va ns; vb := vb ns |}.
+     saved := o; va := va ns; vb := vb ns; n_iter := n_iter ns |}.
+Definition ns_set_iter (ns : nst) (i : nat) : nst :=
+  {| ph := ph ns; n_env := n_env ns; own_stop := own_stop ns; reg := reg ns; adone := adone ns; bdone := bdone ns;
+     saved := saved ns; va := va ns; vb := vb ns; n_iter := i |}.
 (* child i (false = a, true = b) finished, with value v if it produced one *)
 Definition ns_child_done (ns : nst) (i : bool) (v : Z) : nst :=
   if i then {| ph := ph ns; n_env := n_env ns; own_stop := own_stop ns; reg := reg ns; adone := adone ns; bdone := true;
-               saved := saved ns; va := va ns; vb := v |}
+               saved := saved ns; va := va ns; vb := v; n_iter := n_iter ns |}
   else {| ph := ph ns; n_env := n_env ns; own_stop := own_stop ns; reg := reg ns; adone := true; bdone := bdone ns;
-          saved := saved ns; va := v; vb := vb ns |}.
+          saved := saved ns; va := v; vb := vb ns; n_iter := n_iter ns |}.
 
 Definition res := (ost * list tev * option outcome)%type.
 
@@ -158,6 +185,7 @@ Definition un_env (k : ukind) (en : env) : env :=
   | UWithQ q v => env_q en q v
   | UUnstoppable => env_unstoppable en
   | UWithSched c => env_sched en c
+  | ULetSS now => env_ss en (now || e_stopped en)
   | _ => en
   end.
 
@@ -190,6 +218,7 @@ Definition after_first (k : bkind) (en : env) (o : outcome) : outcome + (env * o
   | BLetD, ODone => inr (en, None)
   | BSeq, OVal _ => inr (en, None)
   | BFinally, _ => inr (en, Some o)
+  | BRetry _, OErr e => inr (env_bind en e, None)     (* [Calc2] only the environment is used, see retry_a_done *)
   | _, _ => inl o
   end.
 
@@ -218,6 +247,8 @@ Fixpoint dtor (e : sexpr) (st : ost) : list tev :=
   | Leaf id, OLeaf _ _ => [TLeafDtor id]
   | LeafN id, OLeaf _ _ => [TLeafDtor id]
   | Sched _ c, OLeaf _ _ => [TSchedDtor c]
+  | LeafR id _, OLeaf _ _ => [TLeafDtor id]
+  | LeafR id _, OHeld _ => [TLeafDtor id]
   | Un _ s, ONode _ sc _ => dtor s sc
   | Un _ s, OCompl sc _ => dtor s sc
   | Bin k a b, ONode _ sa sb => if dtor_b_first k then dtor b sb ++ dtor a sa else dtor a sa ++ dtor b sb
@@ -235,6 +266,122 @@ Fixpoint dtor (e : sexpr) (st : ost) : list tev :=
      the others forward and keep the child until their own destructor runs
        (let_value.hpp cleanup_, sequence.hpp status_, let_done.hpp startedOp_). *)
 Definition eager_dtor (k : bkind) : bool := match k with BLetE | BFinally => true | _ => false end.
+
+(* [Calc2] unary nodes with an own stop source (let_value_with_stop_source): initial node state.
+   start() registers the source's callback on the receiver's token (fused_stop_source::register_callbacks);
+   if stop was already requested it runs inline; the registration is removed before the result is forwarded
+   (stop_source_receiver::set_value/set_error/set_done: deregister_callbacks first). *)
+Definition un_own (k : ukind) : bool := match k with ULetSS _ => true | _ => false end.
+Definition un_nst (k : ukind) (en : env) : nst :=
+  match k with
+  | ULetSS now => ns_set_own (ns_set_reg (mk_nst PFirst en) (negb (e_stopped en))) (now || e_stopped en)
+  | _ => mk_nst PFirst en
+  end.
+
+(* does a batch of events end with LeafR's request to stop source lvl ? *)
+Definition fired (lvl : nat) (tr : list tev) : bool :=
+  match last tr (TLeak false) with TReqStop _ l => Nat.eqb l lvl | _ => false end.
+
+(* ---- [Calc2] repeat_effect_until ------------------------------------------------------------- *)
+(* The source completed with a value and the caller has emitted its destruction.  [rest] = the answers the
+   predicate has still to give, [i] = calls so far, [r0] = the result of connecting and starting a fresh
+   copy of the source (the same for every iteration of one call: nothing changes in between).
+   repeat_effect_until.hpp _rcvr::set_value: destruct sourceOp_, call the predicate, complete with value
+   if true, else construct sourceOp_ again and start it. *)
+Fixpoint rep_loop (s : sexpr) (r0 : res) (rest : list bool) (i : nat) : nat * res :=
+  match rest with
+  | [] => (S i, (OFin, [TPred true], Some (OVal 0)))
+  | true :: _ => (S i, (OFin, [TPred true], Some (OVal 0)))
+  | false :: rest' =>
+      let '(sc, tr, r) := r0 in
+      match r with
+      | Some (OVal _) =>
+          let '(i', (sc', tr', r')) := rep_loop s r0 rest' (S i) in
+          (i', (sc', TPred false :: tr ++ dtor s sc ++ tr', r'))
+      | Some o => (S i, (OCompl sc OFin, TPred false :: tr, Some o))
+      | None => (S i, (sc, TPred false :: tr, None))
+      end
+  end.
+
+(* the source of a repeat_effect_until node (state [ns]) completed with [o] *)
+Definition rep_done (l : list bool) (s : sexpr) (ns : nst) (sc : ost) (tr : list tev) (o : outcome) (r0 : res) : res :=
+  match o with
+  | OVal _ =>
+      let '(i', (sc', tr', r')) := rep_loop s r0 (skipn (n_iter ns) l) (n_iter ns) in
+      match r' with
+      | None => (ONode (ns_set_iter ns i') sc' OFin, tr ++ dtor s sc ++ tr', None)
+      | Some o' => (sc', tr ++ dtor s sc ++ tr', Some o')
+      end
+  | _ => (OCompl sc OFin, tr, Some o)       (* error / done pass through; sourceOp_ lives until the destructor *)
+  end.
+
+(* ---- [Calc2] retry_when ----------------------------------------------------------------------- *)
+(* The source failed with error [e] and the caller has emitted its destruction (retry_when.hpp
+   source_receiver::set_error: deactivate sourceOp_, invoke the function, connect and start the trigger).
+   [rem] = retries the function still grants, [i] = errors handled so far, [rbe] = result of starting the
+   trigger for this error; [r0a] = result of starting a fresh source and [r0bl] = of starting the trigger
+   for the error r0a fails with inline (if it does).
+   trigger_receiver: value -> destroy the trigger op, connect and start the source again;
+                     error / done -> destroy the trigger op, forward. *)
+Fixpoint retry_err (a b : sexpr) (r0a r0bl : res) (rem : nat) (i : nat) (rbe : res) (e : Z)
+  : nat * phase * res :=
+  match rem with
+  | O => (S i, PFirst, (OFin, [TGate false], Some (OErr e)))
+  | S rem' =>
+      let '(sb, trb, rb) := rbe in
+      match rb with
+      | None => (S i, PSecond, (OCompl OFin sb, TGate true :: trb, None))
+      | Some (OVal _) =>
+          let '(sa, tra, ra) := r0a in
+          let pre := TGate true :: trb ++ dtor b sb ++ tra in
+          match ra with
+          | None => (S i, PFirst, (OCompl sa OFin, pre, None))
+          | Some (OErr e') =>
+              let '(i', p', (st', tr', r')) := retry_err a b r0a r0bl rem' (S i) r0bl e' in
+              (i', p', (st', pre ++ dtor a sa ++ tr', r'))
+          | Some o => (S i, PFirst, (OCompl sa OFin, pre, Some o))
+          end
+      | Some o => (S i, PSecond, (OFin, TGate true :: trb ++ dtor b sb, Some o))
+      end
+  end.
+
+(* assemble the node: retry_err returns the children as [OCompl sa sb] *)
+Definition retry_node (ns : nst) (x : nat * phase * res) (tr0 : list tev) : res :=
+  let '(i', p', (st', tr', r')) := x in
+  match r' with
+  | Some o => (st', tr0 ++ tr', Some o)
+  | None =>
+      match st' with
+      | OCompl sa sb => (ONode (ns_set_iter (ns_set_ph ns p') i') sa sb, tr0 ++ tr', None)
+      | _ => (st', tr0 ++ tr', None)
+      end
+  end.
+
+(* the source of a retry_when node completed with [oa] (events so far [tr]) *)
+Definition retry_a_done (n : nat) (a b : sexpr) (ns : nst) (sa : ost) (tr : list tev) (oa : outcome)
+           (r0a r0bl rbe : res) : res :=
+  match oa with
+  | OErr e => retry_node ns (retry_err a b r0a r0bl (n - n_iter ns) (n_iter ns) rbe e) (tr ++ dtor a sa)
+  | _ => (OCompl sa OFin, tr, Some oa)      (* value / done pass through; sourceOp_ lives until the destructor *)
+  end.
+
+(* the trigger of a retry_when node completed with [ob] *)
+Definition retry_b_done (n : nat) (a b : sexpr) (ns : nst) (sb : ost) (tr : list tev) (ob : outcome)
+           (r0a r0bl : res) : res :=
+  match ob with
+  | OVal _ =>
+      let '(sa, tra, ra) := r0a in
+      let pre := tr ++ dtor b sb ++ tra in
+      match ra with
+      | None => (ONode (ns_set_ph ns PFirst) sa OFin, pre, None)
+      | Some (OErr e') => retry_node ns (retry_err a b r0a r0bl (n - n_iter ns) (n_iter ns) r0bl e') (pre ++ dtor a sa)
+      | Some o => (OCompl sa OFin, pre, Some o)
+      end
+  | _ => (OFin, tr ++ dtor b sb, Some ob)
+  end.
+
+(* the error a result fails with, if it does *)
+Definition res_err (r : res) : option Z := match r with (_, _, Some (OErr e)) => Some e | _ => None end.
 
 (* done_as_optional(s) = let_done(then(s, some), [] { return just(nullopt); }): on done the
    source operation is destroyed before the successor is connected *)
@@ -323,11 +470,21 @@ Fixpoint start (e : sexpr) (en : env) (cx : nat) {struct e} : res :=
       (* enqueued on context c; no stop callback: the token is looked at when the item runs
          ([seen] records whether stop has been requested on the receiver's token) *)
       (OLeaf false (e_stopped en), [TSchedStart id c], None)
+  | LeafR id _ =>
+      (* the underlying leaf, as Leaf *)
+      if e_stopped en then
+        (OLeaf false true, [TLeafStart id true (e_stoppable en) (e_q0 en) (e_q1 en) (e_sched en) cx; TLeafStop id], None)
+      else (OLeaf false false, [TLeafStart id false (e_stoppable en) (e_q0 en) (e_q1 en) (e_sched en) cx], None)
+  | StopIf => (OFin, [], Some (if e_stopped en then ODone else OVal 0))
   | Un k s =>
       let '(sc, tr, r) := start s (un_env k en) cx in
       match r with
-      | Some o => un_done k s sc tr o
-      | None => (ONode (mk_nst PFirst en) sc OFin, tr, None)
+      | Some o =>
+          match k with
+          | URepeat l => rep_done l s (un_nst k en) sc tr o (sc, tr, r)
+          | _ => un_done k s sc tr o
+          end
+      | None => (ONode (un_nst k en) sc OFin, tr, None)
       end
   | Bin k a b =>
       if is_seq k then
@@ -335,6 +492,11 @@ Fixpoint start (e : sexpr) (en : env) (cx : nat) {struct e} : res :=
         match ra with
         | None => (ONode (mk_nst PFirst en) sa OFin, tra, None)
         | Some oa =>
+            match k with
+            | BRetry n =>
+                let rbe := match oa with OErr e => start b (env_bind en e) cx | _ => (OFin, [], None) end in
+                retry_a_done n a b (mk_nst PFirst en) sa tra oa (sa, tra, ra) rbe rbe
+            | _ =>
             match after_first k en oa with
             | inl o => seq_pass k a sa tra o
             | inr (en2, sv) =>
@@ -344,6 +506,7 @@ Fixpoint start (e : sexpr) (en : env) (cx : nat) {struct e} : res :=
                 | None => (ONode (ns_set_saved (mk_nst PSecond en) sv) OFin sb, tra' ++ trb, None)
                 | Some ob => seq_final k b sb (tra' ++ trb) (after_second k sv ob)
                 end
+            end
             end
         end
       else
@@ -385,15 +548,23 @@ with stop (e : sexpr) (st : ost) (cx : nat) {struct e} : res :=
   | Leaf id, OLeaf false false => (OLeaf false true, [TLeafStop id], None)
   | LeafN id, OLeaf false false => (OLeaf true true, [TLeafStop id], Some ODone)
   | Sched _ _, OLeaf false false => (OLeaf false true, [], None)
+  | LeafR id _, OLeaf false false => (OLeaf false true, [TLeafStop id], None)
   | Un k s, ONode ns sc _ =>
       match k with
       | UUnstoppable => (st, [], None)
       | _ =>
           let ns' := ns_set_env ns (env_with_stop (n_env ns) true) in
+          if un_own k && own_stop ns then (ONode ns' sc OFin, [], None)    (* own source already requested *)
+          else
+          let ns'' := if un_own k then ns_set_own ns' true else ns' in
           let '(sc', tr, r) := stop s sc cx in
           match r with
-          | Some o => un_done k s sc' tr o
-          | None => (ONode ns' sc' OFin, tr, None)
+          | Some o =>
+              match k with
+              | URepeat l => rep_done l s ns'' sc' tr o (start s (un_env k (n_env ns'')) cx)
+              | _ => un_done k s sc' tr o
+              end
+          | None => (ONode ns'' sc' OFin, tr, None)
           end
       end
   | Bin k a b, ONode ns sa sb =>
@@ -405,6 +576,13 @@ with stop (e : sexpr) (st : ost) (cx : nat) {struct e} : res :=
             match ra with
             | None => (ONode ns' sa' sb, tra, None)
             | Some oa =>
+                match k with
+                | BRetry n =>
+                    let r0a := start a (n_env ns') cx in
+                    let r0bl := match res_err r0a with Some e => start b (env_bind (n_env ns') e) cx | None => (OFin, [], None) end in
+                    let rbe := match oa with OErr e => start b (env_bind (n_env ns') e) cx | _ => (OFin, [], None) end in
+                    retry_a_done n a b ns' sa' tra oa r0a r0bl rbe
+                | _ =>
                 match after_first k (n_env ns') oa with
                 | inl o => seq_pass k a sa' tra o
                 | inr (en2, sv) =>
@@ -415,12 +593,20 @@ with stop (e : sexpr) (st : ost) (cx : nat) {struct e} : res :=
                     | Some ob => seq_final k b sb' (tra' ++ trb) (after_second k sv ob)
                     end
                 end
+                end
             end
         | _ =>
             let '(sb', trb, rb) := stop b sb cx in
             match rb with
             | None => (ONode ns' sa sb', trb, None)
-            | Some ob => seq_final k b sb' trb (after_second k (saved ns) ob)
+            | Some ob =>
+                match k with
+                | BRetry n =>
+                    let r0a := start a (n_env ns') cx in
+                    let r0bl := match res_err r0a with Some e => start b (env_bind (n_env ns') e) cx | None => (OFin, [], None) end in
+                    retry_b_done n a b ns' sb' trb ob r0a r0bl
+                | _ => seq_final k b sb' trb (after_second k (saved ns) ob)
+                end
             end
         end
       else if own_stop ns then (ONode ns' sa sb, [], None)     (* own source already requested *)
@@ -459,11 +645,40 @@ Fixpoint leafev (e : sexpr) (st : ost) (id : nat) (o : outcome) (cx : nat) : res
          was requested on the receiver's token, value otherwise *)
       if Nat.eqb id id' then ((OLeaf true seen, [], Some (if seen then ODone else OVal 0)), true)
       else ((st, [], None), false)
+  | LeafR id' lvl, OLeaf false seen =>
+      if Nat.eqb id id' then
+        match o with
+        | OVal v => ((OHeld v, [TReqStop id lvl], None), true)     (* the callable runs: see the ULetSS case *)
+        | _ => ((OLeaf true seen, [], Some o), true)
+        end
+      else ((st, [], None), false)
+  | LeafR id' _, OHeld v =>
+      (* the callable returned: the completion proceeds ([o] is not used) *)
+      if Nat.eqb id id' then ((OLeaf true true, [], Some (OVal v)), true) else ((st, [], None), false)
   | Un k s, ONode ns sc _ =>
       let '((sc', tr, r), hit) := leafev s sc id o cx in
       match r with
-      | Some oc => (un_done k s sc' tr oc, hit)
-      | None => ((ONode ns sc' OFin, tr, None), hit)
+      | Some oc =>
+          match k with
+          | URepeat l => (rep_done l s ns sc' tr oc (start s (un_env k (n_env ns)) cx), hit)
+          | _ => (un_done k s sc' tr oc, hit)
+          end
+      | None =>
+          if un_own k && fired (e_ss (n_env ns)) tr then
+            (* a LeafR below asked for stop on THIS node's source: the source's callbacks run now (unless
+               stop was already requested), then the leaf's completion proceeds *)
+            let '(ns1, (sc1, tr1, r1)) :=
+                if own_stop ns then (ns, (sc', [], None)) else (ns_set_own ns true, stop s sc' cx) in
+            match r1 with
+            | Some oc => (un_done k s sc1 (tr ++ tr1) oc, hit)   (* not reachable: the held leaf keeps the child incomplete *)
+            | None =>
+                let '((sc2, tr2, r2), _) := leafev s sc1 id o cx in
+                match r2 with
+                | Some oc => (un_done k s sc2 (tr ++ tr1 ++ tr2) oc, hit)
+                | None => ((ONode ns1 sc2 OFin, tr ++ tr1 ++ tr2, None), hit)
+                end
+            end
+          else ((ONode ns sc' OFin, tr, None), hit)
       end
   | Bin k a b, ONode ns sa sb =>
       if is_seq k then
@@ -473,6 +688,13 @@ Fixpoint leafev (e : sexpr) (st : ost) (id : nat) (o : outcome) (cx : nat) : res
             match ra with
             | None => ((ONode ns sa' sb, tra, None), hit)
             | Some oa =>
+                match k with
+                | BRetry n =>
+                    let r0a := start a (n_env ns) cx in
+                    let r0bl := match res_err r0a with Some e => start b (env_bind (n_env ns) e) cx | None => (OFin, [], None) end in
+                    let rbe := match oa with OErr e => start b (env_bind (n_env ns) e) cx | _ => (OFin, [], None) end in
+                    (retry_a_done n a b ns sa' tra oa r0a r0bl rbe, hit)
+                | _ =>
                 match after_first k (n_env ns) oa with
                 | inl o' => (seq_pass k a sa' tra o', hit)
                 | inr (en2, sv) =>
@@ -483,12 +705,20 @@ Fixpoint leafev (e : sexpr) (st : ost) (id : nat) (o : outcome) (cx : nat) : res
                     | Some ob => (seq_final k b sb' (tra' ++ trb) (after_second k sv ob), hit)
                     end
                 end
+                end
             end
         | _ =>
             let '((sb', trb, rb), hit) := leafev b sb id o cx in
             match rb with
             | None => ((ONode ns sa sb', trb, None), hit)
-            | Some ob => (seq_final k b sb' trb (after_second k (saved ns) ob), hit)
+            | Some ob =>
+                match k with
+                | BRetry n =>
+                    let r0a := start a (n_env ns) cx in
+                    let r0bl := match res_err r0a with Some e => start b (env_bind (n_env ns) e) cx | None => (OFin, [], None) end in
+                    (retry_b_done n a b ns sb' trb ob r0a r0bl, hit)
+                | _ => (seq_final k b sb' trb (after_second k (saved ns) ob), hit)
+                end
             end
         end
       else
@@ -545,6 +775,20 @@ Definition on (id c : nat) (s : sexpr) : sexpr := Bin BSeq (Sched id c) (Un (UWi
    scheduler-affine): finally(s, unstoppable(schedule(sched))) *)
 Definition wsa_via (id c : nat) (s : sexpr) : sexpr := Bin BFinally s (Un UUnstoppable (Sched id c)).
 
+(* just_from.hpp: just_from(f) = then(just(), f)   (the harness callable is applied to 0) *)
+Definition just_from (f : fn) : sexpr := Un (UThen f) (Just 0).
+(* defer.hpp: defer(f) = let_value(just(), f): the body sits under one more binder than in the C++ source *)
+Fixpoint lift (d : nat) (e : sexpr) : sexpr :=
+  match e with
+  | Var n => if Nat.leb d n then Var (S n) else Var n
+  | Un k s => Un k (lift d s)
+  | Bin k a b =>
+      Bin k (lift d a)
+          (match k with BLetV | BLetE | BRetry _ => lift (S d) b | _ => lift d b end)
+  | _ => e
+  end.
+Definition defer (body : sexpr) : sexpr := Bin BLetV (Just 0) (lift 0 body).
+
 (* ---- whole runs ------------------------------------------------------------------------------------ *)
 (* script events; every event is delivered on a context: an external leaf completion and a stop
    request carry the context they happen on, EvRun c runs the oldest queued item of context c on c *)
@@ -563,7 +807,7 @@ Record run_state := {
 }.
 
 Definition root_env (stopped : bool) : env :=
-  {| e_stopped := stopped; e_stoppable := true; e_root := true; e_q0 := 0; e_q1 := 0; e_sched := 0; e_bound := [] |}.
+  {| e_stopped := stopped; e_stoppable := true; e_root := true; e_q0 := 0; e_q1 := 0; e_sched := 0; e_ss := 0; e_bound := [] |}.
 
 Definition is_root_leak (x : xev) : bool := match x with XT (TLeak true) => true | _ => false end.
 
